@@ -81,3 +81,82 @@ def no_value_keyed_memo(chk: Check, rule: str, proj: Project, funcs: List[Tuple[
         memo = [d for d in decs if d.split(".")[-1] in MEMO_DECORATORS]
         chk.ob(rule, f"{mod}:{q}:not-memoised", m.loc(f), not memo,
                "no memo decorator" if not memo else f"`@{memo[0]}` freezes the first answer for equal arguments, but {why}")
+
+
+def ident_kind(name: str) -> Optional[str]:
+    """The one script kind an identifier names (`css_input_hash`, `toLoadJsTags`, `JS_PLACEHOLDER`), else None."""
+    import re
+
+    toks = {t.lower() for part in name.split("_") for t in re.findall(r"[A-Z]+(?![a-z])|[A-Z]?[a-z0-9]+", part)}
+    has = [k for k in ("js", "css") if k in toks]
+    return has[0] if len(has) == 1 else None
+
+
+def _terminal_ident(e: ast.AST) -> Optional[str]:
+    if isinstance(e, ast.Name):
+        return e.id
+    if isinstance(e, ast.Attribute):
+        return e.attr
+    if isinstance(e, ast.Subscript) and isinstance(e.slice, ast.Constant) and isinstance(e.slice.value, str):
+        return e.slice.value
+    if isinstance(e, ast.Call) and isinstance(e.func, ast.Attribute) and e.func.attr in ("get", "pop", "decode", "encode", "strip") :
+        if e.func.attr in ("get", "pop") and e.args and isinstance(e.args[0], ast.Constant) and isinstance(e.args[0].value, str):
+            return e.args[0].value
+        if e.func.attr in ("decode", "encode", "strip"):
+            return _terminal_ident(e.func.value)
+    if isinstance(e, ast.BoolOp) and e.values:
+        return _terminal_ident(e.values[0])
+    return None
+
+
+def kind_named_args(chk: Check, rule: str, proj: Project, cg: CallGraph, modules: Sequence[str], floor: int = 1) -> None:
+    """Twin-kind argument agreement: where a callee's parameter names one script kind (`css_input_hash`) and the argument
+    is a variable / attribute / constant-keyed item that names a kind too, the two kinds are the same. The js / css twins
+    have identical types everywhere, so a swap type-checks and every test that uses only one kind passes."""
+    n = 0
+    for mn in modules:
+        m = proj.mod(mn)
+        for q, f in sorted(m.defs.items()):
+            if not isinstance(f, (ast.FunctionDef, ast.AsyncFunctionDef)):
+                continue
+            for c in calls(f):
+                tg = cg.resolve_callee(m, c, c.func)
+                if tg is None:
+                    continue
+                g = tg[1]
+                if isinstance(g, ast.ClassDef):
+                    init = cg.find_method(tg[0], g, "__init__")
+                    flds = [s.target.id for s in g.body if isinstance(s, ast.AnnAssign) and isinstance(s.target, ast.Name)]
+                    if init is not None:
+                        gp = params(init[1])[1:]
+                    else:
+                        gp = flds
+                    off = 0
+                elif isinstance(g, (ast.FunctionDef, ast.AsyncFunctionDef)):
+                    gp = params(g)
+                    off = 1 if gp and gp[0] in ("self", "cls") and not isinstance(c.func, ast.Name) else 0
+                    gp = gp[off:]
+                else:
+                    continue
+                pairs: List[Tuple[str, ast.AST]] = []
+                for i, a in enumerate(c.args):
+                    if isinstance(a, ast.Starred):
+                        break
+                    if i < len(gp):
+                        pairs.append((gp[i], a))
+                pairs += [(k.arg, k.value) for k in c.keywords if k.arg]
+                for pn, a in pairs:
+                    kp = ident_kind(pn)
+                    ti = _terminal_ident(a)
+                    ka = ident_kind(ti) if ti else None
+                    if isinstance(a, ast.Constant) and a.value in ("js", "css"):
+                        ka = a.value
+                    if kp is None or ka is None:
+                        continue
+                    n += 1
+                    chk.analysed(f"{m.name}:{q}")
+                    gname = getattr(g, "name", "?")
+                    chk.ob(rule, f"{m.name.replace('django_components.', '')}:{q}->{gname}({pn}=):kind-of-argument", m.loc(a), kp == ka,
+                           f"`{short(a, 40)}` ({ka}) is bound to `{pn}`" if kp == ka else
+                           f"`{short(a, 60)}` (a {ka} value) is bound to {gname}()'s `{pn}` (the {kp} one): the two kinds are swapped on the way down - e.g. the CSS variables hash is recorded in the JS field of the dependency marker, so the page announces `<hash>.<css-input>.js`, which was never cached (404), and the stylesheet for the CSS variables is never announced")
+    chk.floor(rule, n, floor)
